@@ -432,7 +432,7 @@ impl Prop for C16 {
                 8 => rng.urange(1201, 5000),
                 _ => {
                     if rng.chance(0.02) {
-                        rng.urange(1_048_570, 9_000_000) // millions of elements: caps and block sizes in the 2^20..2^22 range
+                        rng.urange(1_048_570, 5_000_000) // millions of elements: caps and block sizes in the 2^20..2^22 range
                     } else if rng.chance(0.15) {
                         rng.urange(5001, 150_000) // far beyond any block / cap size a rewrite might use
                     } else {
